@@ -178,8 +178,9 @@ type c36mismatch struct {
 }
 
 type c36case struct {
-	ch  c36channel
-	amt namedAmount
+	ch       c36channel
+	amt      namedAmount
+	thorough bool
 }
 
 type c36result struct {
@@ -191,6 +192,10 @@ type c36result struct {
 	history      []Req
 	reads        int
 	filterHits   int
+	// pagesFollowed: pages obtained by following a cursor; filterPagesOK: those of a
+	// FILTERED listing that held what the reference expects
+	pagesFollowed int
+	filterPagesOK int
 }
 
 func decode(body string) any {
@@ -278,6 +283,7 @@ func runC36Case(boot *pgsim.DB, c c36case) (res c36result) {
 		}
 	}
 	c36Reads(do, "c36", postings, read, &res)
+	c36PagedReads(do, "c36", postings, read, &res, c.thorough)
 	c36Filters(do, "c36", n, &res)
 
 	// --- revert tx 1 (amounts travel through the revert path and are subtracted) ---
@@ -385,10 +391,15 @@ func c36MultiPosting(do func(Req) Resp, ch c36channel, n *big.Int, read func(api
 // a log. The threshold of the balance template is given as a JSON NUMBER in the request
 // variables, the way a client sends it.
 func c36RunQueries(do func(Req) Resp, ledger string, ps []c36posting, n *big.Int, read func(api, reader string) func(where, what string), res *c36result) {
+	// plte / pgte: one row per page, the threshold n is the DEFAULT of the template variable
+	// (a JSON number of the schema document), so that the first page filters on the exact
+	// threshold and the following pages on whatever the cursor carried
 	schema := `{"chart":{"world":{},"a":{"$x":{}}},"queries":{` +
 		`"txs":{"resource":"transactions","params":{"expand":["volumes"],"sort":"id:asc"}},` +
 		`"accs":{"resource":"accounts","params":{"expand":["volumes"]}},` +
 		`"vols":{"resource":"volumes"},` +
+		`"plte":{"resource":"accounts","params":{"pageSize":1},"vars":{"min":{"type":"int","default":` + n.String() + `}},"body":{"$lte":{"balance[USD]":"${min}"}}},` +
+		`"pgte":{"resource":"accounts","params":{"pageSize":1},"vars":{"min":{"type":"int","default":` + n.String() + `}},"body":{"$gte":{"balance[USD]":"${min}"}}},` +
 		`"rich":{"resource":"accounts","vars":{"min":"int"},"body":{"$gte":{"balance[USD]":"${min}"}}}}}`
 	add := read("v2", "run-query")
 	if r := do(post("/v2/"+ledger+"/schemas/vq", schema)); r.Status != 204 {
@@ -423,6 +434,21 @@ func c36RunQueries(do func(Req) Resp, ledger string, ps []c36posting, n *big.Int
 		for i, a := range accounts {
 			checkVolObj(add, "run query vols "+a, jat(b, "cursor", "data", i), want[a])
 		}
+	}
+	// the paged templates, the client following the cursors (body {"cursor": …}): the accounts
+	// whose reference balance is <= n (>= n), in address order
+	for _, pt := range []struct{ id, op string }{{"plte", "$lte"}, {"pgte", "$gte"}} {
+		var wantAddrs []string
+		for _, a := range accounts {
+			if c36Matches(want[a].bal(), pt.op, n) {
+				wantAddrs = append(wantAddrs, a)
+			}
+		}
+		runReq := func(body string) Req {
+			return Req{Method: "POST", Path: "/v2/" + ledger + "/queries/" + pt.id + "/run", Query: []KV{{"schemaVersion", "vq"}}, Headers: jsonCT, Body: body}
+		}
+		c36PagedFilter(do, res, "v2", "run-query-"+pt.id, fmt.Sprintf("run query %s (balance[USD] %s %s, threshold = default of the template variable)", pt.id, pt.op, n),
+			runReq(`{}`), func(c string) Req { return runReq(`{"cursor":` + jstr(c) + `}`) }, "address", wantAddrs)
 	}
 	// balances after the revert of tx 1: a:x = 0, a:y = n, world = -n. Thresholds n and n+1
 	// as JSON numbers: exactly a:y, then nobody.
@@ -727,6 +753,15 @@ func c36Filters(do func(Req) Resp, ledger string, n *big.Int, res *c36result) {
 			} else if fc.want {
 				res.filterHits++
 			}
+			// the same filter, one row per page, the client following the cursors
+			var want []string
+			if fc.want {
+				want = []string{"a:x", "a:y"}
+			}
+			path := tgt.path
+			c36PagedFilter(do, res, "v2", tgt.reader+":"+fc.op, name+": filter "+body,
+				Req{Method: "GET", Path: path, Query: []KV{{"pageSize", "1"}}, Headers: jsonCT, Body: body},
+				func(c string) Req { return get(path, KV{"cursor", c}) }, tgt.key, want)
 		}
 	}
 	// v1: balance=<n>&balanceOperator=… (int64 only by contract: a 4xx above 2^63-1 is not a loss)
@@ -743,7 +778,15 @@ func c36Filters(do func(Req) Resp, ledger string, n *big.Int, res *c36result) {
 		got := addrs(decode(resp.Body), "address")
 		if got["a:x"] != fc.want || got["a:y"] != fc.want {
 			res.mism = append(res.mism, c36mismatch{Family: "filter", API: "v1", Where: "accounts-balance:" + fc.op, What: fmt.Sprintf("v1 accounts?balance=%s&balanceOperator=%s returned %v, expected a:x and a:y %s", fc.th, fc.op, sortedKeys(got), map[bool]string{true: "included", false: "excluded"}[fc.want])})
+			continue
 		}
+		var want []string
+		if fc.want {
+			want = []string{"a:x", "a:y"}
+		}
+		c36PagedFilter(do, res, "v1", "accounts-balance:"+fc.op, fmt.Sprintf("v1 accounts?balance=%s&balanceOperator=%s", fc.th, fc.op),
+			get("/"+ledger+"/accounts", KV{"address", "a:"}, KV{"balance", fc.th.String()}, KV{"balanceOperator", fc.op}, KV{"pageSize", "1"}),
+			func(c string) Req { return get("/"+ledger+"/accounts", KV{"cursor", c}) }, "address", want)
 	}
 }
 
@@ -770,13 +813,13 @@ func runC36(r *ev.Run) (ev.Coverage, []string) {
 	var cases []c36case
 	for _, ch := range c36Channels() {
 		for _, a := range c36Amounts() {
-			cases = append(cases, c36case{ch, a})
+			cases = append(cases, c36case{ch, a, r.Thorough()})
 		}
 	}
 	var mu sync.Mutex
 	var next atomic.Int64
 	var stopped atomic.Bool
-	var evals, reads, filterHits int64
+	var evals, reads, filterHits, pagesFollowed, filterPagesOK int64
 	accepted := map[string]int{}
 	rejected := map[string][]string{}
 	type refusal struct {
@@ -807,6 +850,8 @@ func runC36(r *ev.Run) (ev.Coverage, []string) {
 				evals++
 				reads += int64(res.reads)
 				filterHits += int64(res.filterHits)
+				pagesFollowed += int64(res.pagesFollowed)
+				filterPagesOK += int64(res.filterPagesOK)
 				if res.accepted {
 					accepted[chName]++
 					acceptedPairs = append(acceptedPairs, struct{ ch, amt string }{chName, c.amt.Name})
@@ -875,6 +920,9 @@ func runC36(r *ev.Run) (ev.Coverage, []string) {
 		if filterHits == 0 {
 			r.EngineError("vacuous: no balance filter ever matched")
 		}
+		if pagesFollowed == 0 || filterPagesOK == 0 {
+			r.EngineError(fmt.Sprintf("vacuous: pages obtained by following a cursor: %d, of which pages of a filtered listing holding the expected rows: %d", pagesFollowed, filterPagesOK))
+		}
 	}
 	for k := range rejected {
 		sort.Strings(rejected[k])
@@ -884,17 +932,19 @@ func runC36(r *ev.Run) (ev.Coverage, []string) {
 		nontrivial += v
 	}
 	cov := ev.Coverage{
-		"evaluations":         evals,
-		"distinct_nontrivial": nontrivial,
-		"reads_compared":      reads,
-		"filters_matched":     filterHits,
-		"accepted_by_channel": accepted,
-		"refused_writes":      rejected,
-		"channels":            len(c36Channels()),
-		"amounts":             len(c36Amounts()),
-		"exhaustive":          exhaustive,
-		"samples":             samples.List(),
-		"rule":                "every write channel (postings, script variable as string / as JSON object with a JSON-number amount / with a string amount, script literal on both runtimes, bulk; v1 and v2) x every amount of {0,1,2^53-1,2^53+1,2^63-1,2^63+1,2^64-1,2^64+1,10^30}: two transactions world->a:x, world->a:y on a fresh clone; then the database (accounts_volumes, moves, transactions.postings by raw SQL), every read of both API versions (transactions, accounts, balances, aggregated balances, volumes, logs, export), balance[USD] filters with thresholds N-1, N, N+1 (all operators), a revert, and export->import into an empty ledger are compared, as big.Int parsed from the JSON text, with a reference fold; distinct_nontrivial = (channel, amount) pairs whose write was accepted",
+		"evaluations":                                evals,
+		"distinct_nontrivial":                        nontrivial,
+		"reads_compared":                             reads,
+		"filters_matched":                            filterHits,
+		"pages_obtained_by_following_a_cursor":       pagesFollowed,
+		"filtered_pages_after_the_first_as_expected": filterPagesOK,
+		"accepted_by_channel":                        accepted,
+		"refused_writes":                             rejected,
+		"channels":                                   len(c36Channels()),
+		"amounts":                                    len(c36Amounts()),
+		"exhaustive":                                 exhaustive,
+		"samples":                                    samples.List(),
+		"rule":                                       "every write channel (postings, script variable as string / as JSON object with a JSON-number amount / with a string amount, script literal on both runtimes, bulk; v1 and v2) x every amount of {0,1,2^53-1,2^53+1,2^63-1,2^63+1,2^64-1,2^64+1,10^30}: two transactions world->a:x, world->a:y on a fresh clone; then the database (accounts_volumes, moves, transactions.postings by raw SQL), every read of both API versions (transactions, accounts, balances, aggregated balances, volumes, logs, export), balance[USD] filters with thresholds N-1, N, N+1 (all operators), EVERY FILTERED LISTING ALSO READ ONE ROW PER PAGE WITH THE CLIENT FOLLOWING THE CURSORS (v2 accounts and volumes for every operator and threshold, v1 accounts?balance=, and after the revert the query templates plte/pgte whose threshold N is the default of the template variable: pageSize=1, cursor.next to the last page then cursor.previous back to the first; the rows met page by page must be exactly the accounts the reference selects, in order, and a page reached backwards must be the page reached forwards), the unfiltered listings one row per page (v2 accounts with both expansions, v2 transactions, v2 volumes, v1 transactions, v1 balances; thorough: also the logs of both versions, and walking back) with the amounts of every page compared, a revert, and export->import into an empty ledger are compared, as big.Int parsed from the JSON text, with a reference fold; distinct_nontrivial = (channel, amount) pairs whose write was accepted",
 	}
 	return cov, assumptions
 }
